@@ -106,24 +106,27 @@ MergedSels(nodes, i) == IF i > Len(nodes) THEN <<>> ELSE nodes[i].sels \o Merged
 ----------------------------------------------------------------------------
 (* 3.5 / 6.4.3 result coercion of leaves.  Returns [ok, val, force].                       *)
 (* Float: non-finite values cannot be coerced and raise a field error (3.5.2).              *)
+Pass(w) == [ok |-> TRUE, val |-> IF w.k = "enum" THEN [k |-> "enum", v |-> w.v] ELSE [k |-> w.k, v |-> w.v], force |-> FALSE]
+Bad == [ok |-> FALSE, val |-> Null, force |-> FALSE]
+BuiltinScalars == {"Int", "Float", "String", "ID", "Boolean"}
 Leaf(C, tname, w) ==
-  CASE tname = "Int"     -> IF w.k = "int" THEN [ok |-> TRUE, val |-> [k |-> "int", v |-> w.v], force |-> FALSE]
-                                           ELSE [ok |-> FALSE, val |-> Null, force |-> FALSE]
-    [] tname = "Float"   -> IF w.k = "float" /\ w.v \notin {"nan", "inf", "ninf"} THEN [ok |-> TRUE, val |-> [k |-> "float", v |-> w.v], force |-> FALSE]
+  \* known deviation (dynamic schemas): the built-in scalars carry no validator, any leaf value passes unchanged
+  IF "DevDynamicScalarUnchecked" \in C.dev /\ tname \in BuiltinScalars /\ w.k \in {"int", "float", "str", "bool", "enum"}
+     /\ ~(w.k = "float" /\ w.v \in {"nan", "inf", "ninf"})
+  THEN Pass(w)
+  ELSE
+  CASE tname = "Int"     -> IF w.k = "int" THEN Pass(w) ELSE Bad
+    [] tname = "Float"   -> IF w.k = "float" /\ w.v \notin {"nan", "inf", "ninf"} THEN Pass(w)
                             ELSE IF w.k = "float" /\ "DevNonFiniteFloatIsNull" \in C.dev THEN [ok |-> TRUE, val |-> Null, force |-> TRUE]
-                            ELSE IF w.k = "int" THEN [ok |-> TRUE, val |-> [k |-> "int", v |-> w.v], force |-> FALSE]
-                            ELSE [ok |-> FALSE, val |-> Null, force |-> FALSE]
-    [] tname \in {"String", "ID"} -> IF w.k = "str" THEN [ok |-> TRUE, val |-> [k |-> "str", v |-> w.v], force |-> FALSE]
-                                     ELSE IF w.k = "int" /\ tname = "ID" THEN [ok |-> TRUE, val |-> [k |-> "str", v |-> w.v], force |-> FALSE]
-                                     ELSE [ok |-> FALSE, val |-> Null, force |-> FALSE]
-    [] tname = "Boolean" -> IF w.k = "bool" THEN [ok |-> TRUE, val |-> [k |-> "bool", v |-> w.v], force |-> FALSE]
-                                            ELSE [ok |-> FALSE, val |-> Null, force |-> FALSE]
+                            ELSE IF w.k = "int" THEN Pass(w)
+                            ELSE Bad
+    [] tname \in {"String", "ID"} -> IF w.k = "str" THEN Pass(w) ELSE Bad
+    [] tname = "Boolean" -> IF w.k = "bool" THEN Pass(w) ELSE Bad
     [] Kind(C, tname) = "ENUM" -> IF w.k \in {"enum", "str"} /\ InSeq(w.v, TypeDef(C, tname).values)
                                   THEN [ok |-> TRUE, val |-> [k |-> C.enumAs, v |-> w.v], force |-> FALSE]
-                                  ELSE [ok |-> FALSE, val |-> Null, force |-> FALSE]
+                                  ELSE Bad
     [] OTHER -> \* custom scalar of a dynamic schema: validator = "the value is a string"
-                IF w.k = "str" THEN [ok |-> TRUE, val |-> [k |-> "str", v |-> w.v], force |-> FALSE]
-                ELSE [ok |-> FALSE, val |-> Null, force |-> FALSE]
+                IF w.k = "str" THEN Pass(w) ELSE Bad
 
 IsComposite(C, t) == Kind(C, t) \in {"OBJECT", "INTERFACE", "UNION"}
 FieldDef(C, obj, name) == TypeDef(C, obj).fields[name]
@@ -147,18 +150,47 @@ ExecGroups(C, groups, i, objId, obj, path, entries, req, opt, causes) ==
        ELSE ExecGroups(C, groups, i + 1, objId, obj, path,
                        Append(entries, [key |-> groups[i].key, val |-> r.val]), req \o r.req, opt \cup r.opt, causes)
 
+\* Known deviation DevFieldPerOccurrence: the executors run one resolver per *occurrence* of a response key
+\* (each with only its own sub-selection) and merge the values afterwards (resolver_utils/container.rs
+\* insert_value): objects are merged key by key, lists item by item, anything else keeps the first value.
+RECURSIVE MergeVal(_, _), MergeEntries(_, _, _), MergeItems(_, _, _)
+HasKey(entries, k) == \E i \in 1..Len(entries) : entries[i].key = k
+MergeVal(a, b) ==
+  IF a.k = "obj" /\ b.k = "obj" THEN [k |-> "obj", entries |-> MergeEntries(a.entries, b.entries, 1)]
+  ELSE IF a.k = "list" /\ b.k = "list" THEN [k |-> "list", items |-> MergeItems(a.items, b.items, 1)]
+  ELSE a
+MergeEntries(ea, eb, i) ==
+  IF i > Len(eb) THEN ea
+  ELSE IF HasKey(ea, eb[i].key)
+       THEN MergeEntries([j \in 1..Len(ea) |-> IF ea[j].key = eb[i].key THEN [ea[j] EXCEPT !.val = MergeVal(ea[j].val, eb[i].val)] ELSE ea[j]], eb, i + 1)
+       ELSE MergeEntries(Append(ea, eb[i]), eb, i + 1)
+MergeItems(ia, ib, j) ==
+  IF j > Len(ia) THEN <<>>
+  ELSE <<IF j <= Len(ib) /\ ia[j].k = "obj" /\ ib[j].k = "obj" THEN MergeVal(ia[j], ib[j]) ELSE ia[j]>> \o MergeItems(ia, ib, j + 1)
+
+RECURSIVE PerOccurrence(_, _, _, _, _, _, _, _, _, _)
+PerOccurrence(C, def, group, w, p, i, acc, req, opt, causes) ==
+  IF i > Len(group.nodes)
+  THEN IF causes = {} THEN R(acc, FALSE, req, opt, FALSE) ELSE R(Null, TRUE, <<causes>>, opt \cup SeqUnion(req, 1), FALSE)
+  ELSE LET r == Complete(C, def.ty, <<group.nodes[i]>>, w, p, group.nodes[i]) IN
+       IF r.fail THEN PerOccurrence(C, def, group, w, p, i + 1, acc, req, opt \cup r.opt, causes \cup SeqUnion(r.req, 1))
+       ELSE PerOccurrence(C, def, group, w, p, i + 1, IF i = 1 THEN r.val ELSE MergeVal(acc, r.val), req \o r.req, opt \cup r.opt, causes)
+
 ExecField(C, group, objId, obj, path) ==
   LET node == group.nodes[1]
       p == Append(path, group.key)
   IN IF node.name = "__typename" THEN R([k |-> "str", v |-> obj], FALSE, <<>>, {}, FALSE)
      ELSE LET def == FieldDef(C, obj, node.name)
               w == C.world[objId].vals[node.name]
-              r == Complete(C, def.ty, group.nodes, w, p, node)
-          IN \* deviation: a resolver error of a nullable field written as Result<Option<T>> (static) /
-             \* any field error (dynamic) is raised to the parent instead of being captured at the field
-             IF ~r.fail /\ r.val = Null /\ Len(r.req) = 1 /\ w.k \in {"err", "guard"} /\ def.ty.k # "nn"
-                /\ (("DevOuterResultNullsParent" \in C.dev /\ def.outer) \/ "DevDynamicNoLocalCapture" \in C.dev)
-             THEN R(Null, TRUE, r.req, r.opt, FALSE)
+              r == IF "DevFieldPerOccurrence" \in C.dev /\ Len(group.nodes) > 1
+                   THEN PerOccurrence(C, def, group, w, p, 1, Null, <<>>, {}, {})
+                   ELSE Complete(C, def.ty, group.nodes, w, p, node)
+          IN \* deviation: a resolver error of a nullable field written as Result<Option<T>> (static schemas)
+             \* is raised to the parent instead of being captured at the field
+             \* (DevOuterResultNullsParent); the same happens when the guard of a nullable field rejects (DevGuardNullsParent)
+             IF ~r.fail /\ r.val = Null /\ Len(r.req) >= 1 /\ def.ty.k # "nn"
+                /\ (("DevOuterResultNullsParent" \in C.dev /\ def.outer /\ w.k = "err") \/ ("DevGuardNullsParent" \in C.dev /\ w.k = "guard"))
+             THEN R(Null, TRUE, <<SeqUnion(r.req, 1)>>, r.opt, FALSE)
              ELSE r
 
 \* a position of type ty (possibly non-null)
